@@ -645,30 +645,36 @@ func calculateTextEditRange(content string, pos protocol.Position, ctxType Compl
 		byteCol = len(line)
 	}
 
+	// The replaced range must cover exactly the text extractQueryText matches against:
+	// both look only at the text before the cursor, so the range never starts past it.
+	beforeCursor := line[:byteCol]
+
 	var startByte int
 	switch ctxType {
 	case ContextAccount:
-		if strings.HasPrefix(line, directiveAccount) {
+		if strings.HasPrefix(beforeCursor, directiveAccount) {
 			startByte = len(directiveAccount)
-		} else if strings.HasPrefix(line, directiveApplyAccount) {
+		} else if strings.HasPrefix(beforeCursor, directiveApplyAccount) {
 			startByte = len(directiveApplyAccount)
 		} else {
-			trimmed := strings.TrimLeft(line[:byteCol], " \t")
+			trimmed := strings.TrimLeft(beforeCursor, " \t")
 			startByte = byteCol - len(trimmed)
 		}
 	case ContextCommodity:
-		if strings.HasPrefix(line, directiveCommodity) {
+		if strings.HasPrefix(beforeCursor, directiveCommodity) {
 			startByte = len(directiveCommodity)
 		} else {
-			startByte = findCommodityStart(line, byteCol)
+			startByte = findCommodityStart(beforeCursor, byteCol)
 		}
 	case ContextPayee:
-		spaceIdx := strings.Index(line[:byteCol], " ")
+		spaceIdx := strings.Index(beforeCursor, " ")
 		if spaceIdx != -1 {
 			startByte = spaceIdx + 1
 			for startByte < byteCol && (line[startByte] == ' ' || line[startByte] == '*' || line[startByte] == '!') {
 				startByte++
 			}
+		} else {
+			startByte = byteCol
 		}
 	default:
 		return nil
@@ -726,7 +732,8 @@ func extractQueryText(content string, pos protocol.Position, ctxType CompletionC
 		if !found {
 			return ""
 		}
-		return strings.TrimLeft(after, " ")
+		// skip the status mark as calculateTextEditRange does
+		return strings.TrimLeft(after, " *!")
 
 	case ContextCommodity:
 		if after, found := strings.CutPrefix(beforeCursor, directiveCommodity); found {
